@@ -441,7 +441,15 @@ func (p *Program) VerifyFunc(key string) *FuncReport {
 			}()
 			ex.verifyTop(fn, con)
 		}()
-		rep.Obls = append(rep.Obls, ex.Obls...)
+		if con != nil && con.AssertsOnly {
+			for _, o := range ex.Obls {
+				if o.Kind == "assert" {
+					rep.Obls = append(rep.Obls, o)
+				}
+			}
+		} else {
+			rep.Obls = append(rep.Obls, ex.Obls...)
+		}
 		for _, o := range ex.OOS {
 			oos[o] = true
 		}
